@@ -357,8 +357,11 @@ class Ctx:
         body = [r for r in res if "i" in r]
         if len(body) != len(records):
             raise MachineryError("harness %s answered %d of %d records" % (cmd, len(body), len(records)))
-        self.evaluations += len(body)
-        self.traces_validated += len(body)
+        skipped = sum(1 for r in body if r.get("skip"))
+        if skipped:
+            self.log("%d records of %s were not run (earlier records hung)" % (skipped, cmd))
+        self.evaluations += len(body) - skipped
+        self.traces_validated += len(body) - skipped
         bad = [r for r in body if not r.get("ok")]
         for r in body:
             nt = r.get("nt")
@@ -371,6 +374,8 @@ class Ctx:
         groups = {}
         for r in bad:
             k = r.get("key") or (key_of(records[r["i"]], r) if key_of else "unkeyed")
+            if k in ("panic", "hang"):
+                k = "%s/%s/%s" % (self.pid, k, cmd)
             groups.setdefault(k, []).append(r)
         unreproduced = []
         for n, (k, rs) in enumerate(sorted(groups.items())):
